@@ -576,6 +576,15 @@ def main(argv):
         return 1 if violations else 0
     finally:
         R.cleanup()
+        if REPO != "/repo" and not os.environ.get("VERIF_KEEP_SCRATCH_BIN"):
+            # harness binaries built against a scratch worktree are of no use afterwards
+            rt = "_" + hashlib.sha1(REPO.encode()).hexdigest()[:8]
+            for fn in os.listdir(os.path.join(WORK, "bin")):
+                if fn.endswith(rt + ".test"):
+                    try: os.remove(os.path.join(WORK, "bin", fn))
+                    except OSError: pass
+            try: os.remove(os.path.join(WORK, f"overlay{rt}.json"))
+            except OSError: pass
         for r_ in locals().get("runners", [])[1:]:
             r_.cleanup()
 
